@@ -38,7 +38,7 @@ REQUIRED = dict(monitors=['chords', 'exp(-tau)', 'depth', 'depth>=bare', 'depth<
                          'contrib:FlatMie', 'contrib:LeeMie', 'nlayers:2', 'rerun:evaluated-after-change',
                          'fault:fired:temperature', 'fault:fired:chemistry', 'fault:fired:contribution', 'fault:fired:pressure',
                          'several:evaluation-judged', 'wn-dtype:i', 'components:judged', 'T-route:mixin', 'chemistry:makefree+file',
-                         'rerun:deepcopy', 'rerun:original-judged-after-its-copy-was-used'])
+                         'rerun:deepcopy', 'rerun:original-judged-after-its-copy-was-used', 'components:live-model-judged'])
 TOL = 1e-10
 CUT = float(np.exp(-10.0))
 
@@ -496,7 +496,10 @@ def wl_components(ctx, rng):
     contributions, before the integral is judged as usual."""
     from vmon.props import c03
     c03.install_component_taps(ctx)
-    (c03.wl_cia_pairs if rng.random() < 0.5 else c03.wl_compose)(ctx, rng)
+    which = [c03.wl_cia_pairs, c03.wl_compose, c03.wl_live][rng.integers(0, 3)]
+    which(ctx, rng)
+    if which is c03.wl_live:
+        ctx.observe('components:live-model-judged')     # abundances written on a live model, evaluated without rebuild
     ctx.observe('components:judged')
 
 
